@@ -387,4 +387,87 @@ theorem calcIndptr_ok (indices : List Nat) (imax : Nat) (sl : Option (Nat × Nat
   rw [List.mem_range] at hk
   rw [← List.map_take, List.take_range, Nat.min_eq_left (by omega), sum_counts_lt]
 
+
+/-! ### entries of a compressed matrix -/
+
+theorem zipIdx_pairwise_snd {β} : ∀ (l : List β) (k : Nat),
+    (l.zipIdx k).Pairwise (fun a b => a.2 < b.2) := by
+  intro l
+  induction l with
+  | nil => intro k; simp
+  | cons x xs ih =>
+    intro k
+    rw [List.zipIdx_cons, List.pairwise_cons]
+    refine ⟨?_, ih (k + 1)⟩
+    intro a ha
+    have := List.le_snd_of_mem_zipIdx ha
+    simp only; omega
+
+theorem majorOf_mono (ip : List Nat) {p q : Nat} (h : p ≤ q) : majorOf ip p ≤ majorOf ip q := by
+  unfold majorOf
+  have : ip.countP (· ≤ p) ≤ ip.countP (· ≤ q) := by
+    apply List.countP_mono_left
+    intro x _ hx
+    simp only [decide_eq_true_eq] at hx ⊢
+    omega
+  omega
+
+/-- the entries of any compressed matrix come with non-decreasing major index -/
+theorem entriesOf_majorsSorted {α} (M : Mat α) : MajorsSorted (entriesOf M) := by
+  unfold entriesOf MajorsSorted
+  rw [List.pairwise_map]
+  apply List.Pairwise.imp _ (zipIdx_pairwise_snd _ 0)
+  intro a b hab
+  simp only [decide_eq_true_eq]
+  exact majorOf_mono _ (by omega)
+
+theorem entriesOf_map_minor {α} (M : Mat α) (h : M.data.length = M.indices.length) :
+    (entriesOf M).map (·.minor) = M.indices := by
+  unfold entriesOf
+  rw [List.map_map]
+  have : ((fun e : Entry α => e.minor) ∘ fun x : (Nat × α) × Nat =>
+      (⟨majorOf M.indptr x.2, x.1.1, x.1.2⟩ : Entry α)) = (fun x => x.1.1) := rfl
+  rw [this]
+  have h2 : (fun x : (Nat × α) × Nat => x.1.1) = Prod.fst ∘ Prod.fst := rfl
+  rw [h2, ← List.map_map, List.zipIdx_map_fst, List.map_fst_zip]
+  omega
+
+theorem entriesOf_length {α} (M : Mat α) (h : M.data.length = M.indices.length) :
+    (entriesOf M).length = M.indices.length := by
+  rw [← entriesOf_map_minor M h, List.length_map]
+
+theorem sliceEntries_map_minor {α} (sl : Option (Nat × Nat)) (E : List (Entry α)) :
+    (sliceEntries sl E).map (·.minor) = sliceMinors sl (E.map (·.minor)) := by
+  cases sl with
+  | none => rfl
+  | some p =>
+    simp only [sliceEntries, sliceMinors, List.map_map, List.filter_map]
+    rfl
+
+/-- canonical transposed arrays of a list of entries: pointer `k` counts the
+entries with minor index `< k`; indices / data are the major indices / values
+of the stable bucketing by minor index -/
+def canonOut {α} (F : List (Entry α)) (n : Nat) : Mat α :=
+  ⟨(List.range (n + 1)).map (fun k => F.countP (·.minor < k)),
+   (bucketSpec F n).map (·.major), (bucketSpec F n).map (·.val)⟩
+
+/-- **the on-disk transposition at bucket level**, for every budget with
+chunk sizes `≥ 1` -/
+theorem transposeOnDisk_eq {α} (M : Mat α) (imax : Nat) (sl : Option (Nat × Nat)) (B : Budget)
+    (hlo : 1 ≤ B.lo) (hc : 1 ≤ B.loCount) (hlen : M.data.length = M.indices.length)
+    (hr : ∀ x ∈ sliceMinors sl M.indices, x < nMinorOf imax sl) :
+    transposeOnDisk M imax sl B
+      = .ok (canonOut (sliceEntries sl (entriesOf M)) (nMinorOf imax sl)) := by
+  unfold transposeOnDisk
+  rw [calcIndptr_ok M.indices imax sl B.loCount hc hr]
+  simp only [bind, Except.bind, pure, Except.pure]
+  rw [transposeEntries_eq_bucketSpec _ _ _ _ _ hlo (entriesOf_majorsSorted M)]
+  simp only [List.length_map, List.length_range, Nat.add_sub_cancel]
+  unfold canonOut
+  congr 2
+  apply List.map_congr_left
+  intro k _
+  rw [← entriesOf_map_minor M hlen, ← sliceEntries_map_minor, List.countP_map]
+  rfl
+
 end CTM.Sparse
